@@ -210,6 +210,86 @@ def make_e(params, part, nparts):
     return h
 
 
+def run_odd(kind, warm):
+    """The underlying object carries an `__implemented__` of its own that is reachable *through* the proxy's `__dict__`:
+    kind 0: a callable (non-class) factory instance declared with implementer(IProduct)(factory) - the documented way to say what a
+            factory produces - queried through super(Factory, factory);
+    kind 1: a class Klass with metaclass Meta(MetaBase), queried through super(Meta, Klass) (the proxy's __dict__ is Klass.__dict__).
+    The proxy must report what the classes after C in type(ob).__mro__ implement, whatever the object itself declares."""
+    from zope.interface import Interface, implementer, implementedBy, providedBy
+    from zope.interface.adapter import AdapterRegistry
+    from zope.interface.interface import InterfaceClass
+    mod = U.fresh_module_name()
+    IBase, IProduct, IOwn, IP = [InterfaceClass(n, (Interface,), __module__=mod) for n in ('IBase', 'IProduct', 'IOwn', 'IP')]
+    if kind == 0:
+        @implementer(IBase)
+        class Base:
+            pass
+
+        @implementer(IOwn)
+        class Factory(Base):
+            def __call__(self):
+                return None
+        ob = Factory()
+        C = Factory
+        declare = lambda: implementer(IProduct)(ob)      # noqa: E731   stores __implemented__ in the instance dict
+    else:
+        @implementer(IBase)
+        class MetaBase(type):
+            pass
+
+        @implementer(IOwn)
+        class Meta(MetaBase):
+            pass
+        ob = Meta('Klass', (), {})
+        C = Meta
+        declare = lambda: implementer(IProduct)(ob)      # noqa: E731   what instances of Klass implement
+    what = ('super(Factory, factory) of a callable factory instance declared with implementer(IProduct)(factory)',
+            'super(Meta, Klass) of a class Klass declared with implementer(IProduct)')[kind]
+    regs = {}
+    for I in (IBase, IProduct, IOwn):
+        r = AdapterRegistry()
+        r.register([I], IP, '', _Factory(I.__name__))
+        regs[I] = r
+
+    def check(when):
+        s = super(C, ob)
+        exp = {IBase}
+        for label, spec in (('providedBy', providedBy(s)), ('implementedBy', implementedBy(s))):
+            got = {x for x in spec.flattened() if x in (IBase, IProduct, IOwn)}
+            if got != exp:
+                raise Violation('%s, %s: %s(proxy) reports %s, the classes after it in the MRO implement [IBase]' % (
+                    what, when, label, sorted(x.__name__ for x in got)), signature='C19:odd:' + label)
+        for I in (IBase, IProduct, IOwn):
+            if bool(I.providedBy(s)) != (I in exp):
+                raise Violation('%s, %s: %s.providedBy(proxy) is %s' % (what, when, I.__name__, I not in exp), signature='C19:odd:I.providedBy')
+            for how in ('queryAdapter', 'adapter_hook', 'queryMultiAdapter'):
+                s2 = super(C, ob)
+                if how == 'queryAdapter':
+                    r = regs[I].queryAdapter(s2, IP)
+                elif how == 'adapter_hook':
+                    r = regs[I].adapter_hook(IP, s2)
+                else:
+                    r = regs[I].queryMultiAdapter((s2,), IP)
+                ok = (isinstance(r, tuple) and r[1] == I.__name__ and r[2] is ob) if I in exp else r is None
+                if not ok:
+                    raise Violation('%s, %s: %s with the adapter registered for %s returns %r' % (what, when, how, I.__name__, r),
+                                    signature='C19:odd:adapt')
+    if warm:
+        check('before the object-level declaration')
+    declare()
+    check('after the object-level declaration')
+    check('repeated')
+
+
+def make_e_odd(params, part, nparts):
+    def h(kind: int, warm: int):
+        case = (pick(kind, 2), pick(warm, 2))
+        reached(case, dict(kind=case[0], warm=case[1]))
+        native(run_odd, *case)
+    return h
+
+
 _ENC = ['zope.interface.declarations:_implementedBy_super', 'zope.interface.declarations:_next_super_class',
         'zope.interface.declarations:Implements.changed', 'zope.interface.declarations:implementedBy',
         'zope.interface.declarations:providedBy', 'zope.interface.adapter:LookupBaseFallback.adapter_hook',
@@ -229,6 +309,13 @@ HARNESSES = [
             outside='more than 4 classes; super(C, cls) class-bound proxies; histories longer than the bound; redundant declarations (C01 covers elision)',
             oracle='union over the classes after C in type(ob).__mro__ of the set model implements(c) (declared + inherited unless *only*), '
                    'never the instance\'s direct declarations; adapter found iff its required interface is in that set, factory called with ob itself'),
+    Harness('e_super_odd', make_e_odd, kind='E', impls=('py', 'c'),
+            tiers=dict(quick=dict(budget_s=30, parts=1, params={}), thorough=dict(budget_s=30, parts=1, params={})),
+            encoded=_ENC + ['zope.interface._zope_interface_coptimizations:implementedBy'],
+            bounds='two shapes in which the underlying object has an __implemented__ of its own reachable through the proxy: a callable factory '
+                   'instance declared with implementer(I)(instance), and a class queried through super(Meta, Klass) of its metaclass; with and '
+                   'without a query before the object-level declaration; providedBy / implementedBy / I.providedBy / three adaptation paths',
+            outside='other attribute-forwarding tricks of the underlying object', oracle='interfaces implemented by the classes after C in type(ob).__mro__'),
 ]
 
 MANIFEST = {
